@@ -192,7 +192,10 @@ def fixed_cases():
     # any NUMBER of comments: thousands in one gap, dozens in every gap, thousands of lines in one comment
     many = [("/* c */" * 2500).join([" ".join(toks[:5]), " ".join(toks[5:])]), (" /* c */ /**/ " * 40).join(toks), ("// c\n" * 3000) + base,
             base + ("\n// c" * 3000), ("/*" + "line\n" * 5000 + "*/").join([" ".join(toks[:9]), " ".join(toks[9:])]),
-            (" /* a */ // b\n /* c\n */ " * 25).join(toks)]
+            (" /* a */ // b\n /* c\n */ " * 25).join(toks),
+            # far more trivia than program: 100 kB of blanks, a 200 kB banner, 1500 change-log lines
+            base + " " * 100000, "/*" + "=" * 200000 + "*/\n" + base, "".join("// 2024-%02d-%02d changed the weights of arm %d\n" % (1 + i % 12, 1 + i % 28, i) for i in range(1500)) + base,
+            ("\n" * 70000).join([" ".join(toks[:7]), " ".join(toks[7:])])]
     yield {"prog": prog, "inputs": inputs, "variants": [{"text": t, "tags": ["block-comment", "many-comments"]} for t in many], "noise": None}
 
 
